@@ -18,6 +18,8 @@ pub const CLUSTER: &str = "mig";
 /// Gates on the switch handshake; optional seeded latencies on everything else.
 pub struct HandshakePolicy {
     pub gated: parking_lot::RwLock<bool>,
+    /// hold the background scan (its SCAN commands) at gate "SCAN"
+    pub hold_scan: parking_lot::RwLock<bool>,
     pub latency_seed: Option<u64>,
     pub max_latency_ms: u64,
 }
@@ -35,6 +37,9 @@ impl Policy for HandshakePolicy {
             && *self.gated.read()
         {
             return Action::Gate(gate_name(&msg.argv1, &msg.dst));
+        }
+        if msg.phase == "request" && msg.kind == "client" && msg.argv0 == "SCAN" && *self.hold_scan.read() {
+            return Action::Gate("SCAN".to_string());
         }
         if let Some(seed) = self.latency_seed {
             if self.max_latency_ms > 0 {
@@ -113,6 +118,7 @@ impl MigScenario {
         let sys = System::new(&cfg, opts.proxy.clone(), opts.coord_compress);
         let policy = Arc::new(HandshakePolicy {
             gated: parking_lot::RwLock::new(true),
+            hold_scan: parking_lot::RwLock::new(false),
             latency_seed: opts.latency_seed,
             max_latency_ms: opts.max_latency_ms,
         });
